@@ -92,7 +92,7 @@ def r1(run, ctx):
               ar.node)
     st = ctx.fn(R + 'start')
     t = flat(st.node)
-    run.check('R1', flat('(name, process, pipe) = value') in t and
+    run.check('R1', flat('for (fd, (name, process, pipe)) in self.pipes.items()') in t and
               flat('self._start_one(fd, name, process, pipe)') in t,
               'start() attaches every registered pipe with its own label', st, st.node)
     ri = ctx.fn(R + '__init__')
